@@ -81,6 +81,10 @@ INSIDE = {
     'sub2/deep.txt': b'inside: sub2/deep.txt\n',
     'sub2/other.bin': bytes(range(256)),
     'a b.txt': b'inside: file with a space in its name\n',
+    'a+b.txt': b'inside: file with a PLUS in its name (in a path "+" is an ordinary character, not an encoded blank)\n',
+    'sub/c+d.txt': b'inside: sub/c-plus-d\n',
+    'sub/c d.txt': b'inside: sub/c-blank-d\n',
+    'only+plus.txt': b'inside: only the plus spelling of this name exists\n',
     'p%41.txt': b'inside: literal percent-four-one\n',
     'pA.txt': b'inside: plain pA\n',
     '.hidden': b'inside: dot file\n',
@@ -90,7 +94,7 @@ for _k in INSIDE:
     _d, _, _n = _k.rpartition('/')
     DIRS[_d].add(_n)
 DIRS[''].update(['sub', 'sub2'])
-RANGE_FILES = ['e0.txt', 'e1.txt', 'f10.txt', 'big.txt', 'sub2/other.bin']
+RANGE_FILES = ['e0.txt', 'e1.txt', 'f10.txt', 'big.txt', 'sub2/other.bin', 'a+b.txt']
 
 
 def outside_files(lay):
@@ -683,7 +687,7 @@ def attribute(world, case):
 # ------------------------------------------------------------------------------------------------
 HOSTILE = ['..', '.', '', '%2e%2e', '%252e%252e', '..%2f', '\\', '..\\', '%2e', '..%5c', '%2e%2e%2f', '.%2e', '%2E%2E',
            '..%2f..', '%c0%ae%c0%ae', '..;', '%2e%2e%5c']
-INSIDE_NAMES = ['sub', 'sub2', 'f10.txt', 'big.txt', 'in.txt', 'deep.txt', 'index.html', 'e0.txt', 'a%20b.txt', 'p%2541.txt',
+INSIDE_NAMES = ['a+b.txt', 'a%2Bb.txt', 'c+d.txt', 'c%20d.txt', 'only+plus.txt', 'only%20plus.txt', 'sub', 'sub2', 'f10.txt', 'big.txt', 'in.txt', 'deep.txt', 'index.html', 'e0.txt', 'a%20b.txt', 'p%2541.txt',
                 'pA.txt', '.hidden', 'nonexistent']
 OUTSIDE_NAMES = ['{doc}', '{sib}', '{par}', '{parext}', 'secret.txt', 'secret2.txt', 'x', 'y']
 EXH = ['..', '.', '', '%2e%2e', '%252e%252e', '..%2f', '\\', '..\\', 'sub', 'f10.txt', '{sib}', 'secret.txt', '{doc}']
@@ -750,7 +754,7 @@ def path_features(case):
 
 def corpus():
     cases = []
-    plain = ['f10.txt', 'sub/in.txt', 'sub/', 'sub', 'sub2/', 'sub2', '', 'a%20b.txt', 'p%2541.txt', 'pA.txt', 'e0.txt', 'big.txt',
+    plain = ['a+b.txt', 'a%2Bb.txt', 'a%20b.txt', 'sub/c+d.txt', 'sub/c%20d.txt', 'sub/c%2bd.txt', 'only+plus.txt', 'only%20plus.txt', 'f10.txt', 'sub/in.txt', 'sub/', 'sub', 'sub2/', 'sub2', '', 'a%20b.txt', 'p%2541.txt', 'pA.txt', 'e0.txt', 'big.txt',
              'nonexistent', 'sub2/other.bin', '.hidden', 'sub/index.html']
     hostile = ['../secret.txt', '%2e%2e/secret.txt', '%252e%252e/secret.txt', '..%2fsecret.txt', '..%2f..%2fsecret2.txt',
                'sub/../../secret.txt', '../{sib}/x', '../{sib}/', '../{sib}', '../../{parext}/y', '../../secret2.txt', '..', '../',
